@@ -39,7 +39,7 @@ CHECKS = {
              "prescribes (compared iff on both sides and selected); verdict iff domain equal and no failed/error entry; outcomes of "
              "non-compared fields cannot change the result; the callback trace is exactly the compared names, once each. Tied to "
              "FieldDataComparator/MeshFieldsComparator by T1 truthiness tables and differential runs on tabular and mesh field data.",
-        note=TB + "fnmatch is an oracle (boolean filter tables are handed to the model); names within one data set are distinct.",
+        note=TB + "the pattern language of the filters is modelled (Model/Glob.v) and compared with PatternFilter on generated patterns and names; in the scenario runs the filter tables are still computed with fnmatch and handed to the model; names within one data set are distinct.",
         technique="Coq proof of the comparator model + model/implementation correspondence", ref="7 (C11)"),
     "C04": dict(
         text="Theorem C04_cli_exit_iff (all data sets with distinct field names, all options): the file-mode exit code is 0 iff both "
@@ -57,7 +57,7 @@ CHECKS = {
              "one-sided files occur only under the ignore flags, an exception in a file comparison is a failure, exactly one "
              "reported suite per path. Tied to `fieldcompare dir` by differential runs on generated tree pairs; observables: exit "
              "code, junit suites per path with their class, the filtered-orphans count; metamorphic file-mode runs per path.",
-        note=TB + "os.walk, fnmatch and io.is_supported are oracles (tables handed to the model); symlinks/permissions not covered.",
+        note=TB + "os.walk and io.is_supported are oracles (tables handed to the model); the pattern language of the file filters is modelled (Model/Glob.v: default filters, directory patterns, extension patterns) and compared with PatternFilter on generated patterns and paths; symlinks/permissions not covered.",
         technique="Coq proof of the directory-mode model + model/implementation correspondence", ref="7 (C12)"),
     "C15": dict(
         text="Theorems: iterating a sequence source yields every step once and in order from every cursor position and repeatably; "
